@@ -204,6 +204,11 @@ def build_case(cid, rng, schema):
             {"op": "pl_remove", "id": "$p2"}, {"op": "pl_get", "id": "$p2"}, {"op": "pl_remove", "id": "$p2"}]
     plan += [("missing_remove", "entity"), ("missing_remove", "entity-wrong-list"), ("missing_remove", "playlist"),
              ("pe_remove",), ("pe_list_after_remove",), ("pl_remove",), ("pl_get_after_remove",), ("missing_remove", "playlist-twice")]
+    # information table: the one writable column changes alone
+    v = GS.rint(rng, u["i"], -2 ** 62, 2 ** 62)
+    ops += [{"op": "info_get_full"}, {"op": "info_set_played", "value": v}, {"op": "info_get_full"}, {"op": "cl_all"}, {"op": "cl_last"},
+            {"op": "cl_after", "id": rng.choice([0, -1, 1, 10 ** 6])}]
+    plan += [("info_before",), ("info_set", v), ("info_after", v), ("cl",), ("cl",), ("cl",)]
     return {"id": cid, "schema": schema, "ops": ops, "_plan": [list(x) for x in plan], "_rows": (r1, r2, r3)}
 
 
@@ -217,6 +222,7 @@ def judge_case(ctx, res):
         c = res.crash
         ctx.violation(f"op-did-not-complete {c.get('op')} {c['kind']} at={c['site']}", f"{schema}: {c.get('op')} did not complete: {c['kind']}", wit)
         return
+    info0 = None
     cur = {}       # row number -> expected current row
     ids = {}
     uuid = None
@@ -391,6 +397,29 @@ def judge_case(ctx, res):
         elif kind == "pl_get_after_remove":
             if threw or ret is not None:
                 ctx.violation("removed-row-still-readable playlist", f"{schema}: playlist get() after remove() returns a row", wit)
+        elif kind == "info_before":
+            if threw:
+                ctx.violation("get-fails information", f"{schema}: information().get() throws", wit)
+                return
+            info0 = ret
+        elif kind == "info_set":
+            ctx.count()
+            if threw:
+                ctx.violation("column-setter-throws information played_indicator", f"{schema}: update_current_played_indicator threw {ev['exc']['type']}", wit)
+        elif kind == "info_after":
+            if threw:
+                ctx.violation("get-fails information", f"{schema}: information().get() throws", wit)
+                return
+            want = dict(info0, played=p[1])
+            for c in want:
+                if want[c] != ret.get(c):
+                    rule = "setter-wrong-value" if c == "played" else "setter-touches-other-column"
+                    ctx.violation(f"{rule} information {c}", f"{schema}: after update_current_played_indicator({p[1]}) information.{c} = {ret.get(c)}, expected {want[c]}", wit)
+            ctx.bump("information_table_checks")
+        elif kind == "cl":
+            # from 2.20.3 the change log is a stub view and the table reports unsupported_operation
+            if threw and not (schema_tuple(schema) >= (2, 20, 3) and "unsupported_operation" in ev["exc"].get("is", [])):
+                ctx.violation("change-log-query-throws", f"{schema}: a change_log query throws {ev['exc']['type']}", wit)
         elif kind in ("pe_remove", "pl_remove"):
             if threw:
                 ctx.violation(f"remove-throws {kind}", f"{schema}: {kind} of an existing row threw {ev['exc']['type']}", wit)
